@@ -11,7 +11,10 @@ import (
 	"image/draw"
 	"os"
 	"path/filepath"
+	"runtime"
 	"strings"
+	"sync/atomic"
+	"time"
 
 	"github.com/mandykoh/prism/adobergb"
 	"github.com/mandykoh/prism/displayp3"
@@ -77,6 +80,35 @@ var xforms = []xform{
 	{"prophotorgb.Encode", prophotorgb.EncodeImage, prophotorgb.EncodeColor},
 	{"displayp3.Linearise", displayp3.LineariseImage, displayp3.LineariseColor},
 	{"displayp3.Encode", displayp3.EncodeImage, displayp3.EncodeColor},
+	// the generic transform beneath them, with a colour function of the caller's own ...
+	{"linear.TransformImageColor(own f)", func(dst draw.Image, src image.Image, p int) { linear.TransformImageColor(dst, src, p, ownColour) }, ownColour},
+	// ... and with one that makes the library's workers advance in lockstep (each call waits, briefly,
+	// until as many calls have arrived as there are workers): the workers then reach every hand-over
+	// point together, which is where a shared cursor or a shared scratch value would show
+	{"linear.TransformImageColor(lockstep f)", func(dst draw.Image, src image.Image, p int) {
+		linear.TransformImageColor(dst, src, p, lockstep(p, ownColour))
+	}, ownColour},
+}
+
+func ownColour(c color.Color) color.RGBA64 {
+	r, g, b, a := c.RGBA()
+	return color.RGBA64{R: uint16(b), G: uint16(r) ^ uint16(a>>1), B: uint16(g/2 + 7), A: uint16(a)}
+}
+
+func lockstep(parties int, f func(color.Color) color.RGBA64) func(color.Color) color.RGBA64 {
+	if parties < 1 {
+		parties = 1
+	}
+	var arrived int64
+	return func(c color.Color) color.RGBA64 {
+		n := atomic.AddInt64(&arrived, 1)
+		target := ((n-1)/int64(parties) + 1) * int64(parties)
+		deadline := time.Now().Add(300 * time.Microsecond)
+		for atomic.LoadInt64(&arrived) < target && time.Now().Before(deadline) {
+			runtime.Gosched()
+		}
+		return f(c)
+	}
 }
 
 // pixelBytes renders c as the destination type stores it.
